@@ -58,3 +58,119 @@ fn bprime_soft_error_stream_is_wellformed_json() {
     }
     println!("BPRIME evaluations={n}");
 }
+
+// ---------------------------------------------------------------------------
+// C18 / C01, tier B′ (native, a forked and SIGSTOPped child as the target): the OS-information streams.
+//   * write_file(path) appends a byte copy of the file and returns exactly that location
+//     (cmdline, environ, auxv, maps, limits, status of the child)
+//   * memory-info list: header {16, 48, n}, one entry per line of /proc/<child>/maps with the same range,
+//     the protection the statement's table gives for its r/w/x bits, and MEM_PRIVATE / MEM_MAPPED
+//   * handle stream: header {16, 32, n}, one descriptor per entry of /proc/<child>/fd with that entry's link
+//     target as name and st_mode as attributes; every RVA inside the image
+// ---------------------------------------------------------------------------
+fn stopped_child() -> i32 {
+    let child = unsafe { libc::fork() };
+    assert!(child >= 0);
+    if child == 0 {
+        loop { unsafe { libc::pause(); } }
+    }
+    unsafe { libc::kill(child, libc::SIGSTOP); }
+    for _ in 0..2000 {
+        let stat = std::fs::read_to_string(format!("/proc/{child}/stat")).unwrap_or_default();
+        if stat.rsplit(')').next().map_or(false, |r| r.trim_start().starts_with('T')) { return child; }
+        std::thread::sleep(std::time::Duration::from_millis(1));
+    }
+    panic!("child did not stop");
+}
+
+fn rd32(b: &[u8], at: usize) -> u32 { u32::from_le_bytes(b[at..at + 4].try_into().unwrap()) }
+fn rd64(b: &[u8], at: usize) -> u64 { u64::from_le_bytes(b[at..at + 8].try_into().unwrap()) }
+fn rdstr(b: &[u8], rva: usize) -> String {
+    let n = rd32(b, rva) as usize;
+    let units: Vec<u16> = b[rva + 4..rva + 4 + n].chunks_exact(2).map(|c| u16::from_le_bytes([c[0], c[1]])).collect();
+    String::from_utf16(&units).unwrap()
+}
+
+#[test]
+fn bprime_os_information_streams_mirror_a_stopped_child() {
+    // descriptors the child inherits: a file whose name is not valid UTF-8, and a pipe
+    use std::os::unix::ffi::OsStringExt;
+    let odd = std::ffi::OsString::from_vec(format!("/tmp/verif_c18_{}_", std::process::id()).into_bytes().into_iter().chain([0xff, 0xfe, b'x']).collect());
+    let _odd_file = std::fs::File::create(&odd).expect("create file with a non-UTF-8 name");
+    let mut pipe_fds = [0i32; 2];
+    assert_eq!(unsafe { libc::pipe(pipe_fds.as_mut_ptr()) }, 0);
+    let child = stopped_child();
+    let _ = std::fs::remove_file(&odd);
+    let result = std::panic::catch_unwind(|| {
+        let mut n = 0;
+        let mut config = MinidumpWriter::new(child, child);
+        // raw file copies
+        for f in ["cmdline", "environ", "auxv", "maps", "limits", "status"] {
+            let path = format!("/proc/{child}/{f}");
+            let mut buffer = DumpBuf::with_capacity(0);
+            buffer.write_all(b"0123");
+            let loc = config.write_file(&mut buffer, &path).expect("write_file");
+            let want = std::fs::read(&path).unwrap();
+            let img: &[u8] = &buffer;
+            assert_eq!((loc.rva, loc.data_size as usize), (4, want.len()), "{path}: location");
+            assert_eq!(&img[4..], &want[..], "{path}: byte copy");
+            n += 1;
+        }
+        // memory info list
+        let maps = std::fs::read_to_string(format!("/proc/{child}/maps")).unwrap();
+        let lines: Vec<&str> = maps.lines().collect();
+        let mut buffer = DumpBuf::with_capacity(0);
+        let dirent = memory_info_list_stream::write(&mut config, &mut buffer).expect("memory info list");
+        let img: &[u8] = &buffer;
+        assert_eq!(dirent.stream_type, MDStreamType::MemoryInfoListStream as u32);
+        let d = dirent.location.rva as usize;
+        assert_eq!((rd32(img, d), rd32(img, d + 4), rd64(img, d + 8) as usize), (16, 48, lines.len()), "memory-info header");
+        assert_eq!(dirent.location.data_size as usize, 16 + 48 * lines.len());
+        for (k, l) in lines.iter().enumerate() {
+            let mut it = l.split_whitespace();
+            let (range, perms) = (it.next().unwrap(), it.next().unwrap().as_bytes());
+            let (s, e) = range.split_once('-').unwrap();
+            let (s, e) = (u64::from_str_radix(s, 16).unwrap(), u64::from_str_radix(e, 16).unwrap());
+            let (r, w, x) = (perms[0] == b'r', perms[1] == b'w', perms[2] == b'x');
+            // PAGE_NOACCESS 1, READONLY 2, READWRITE 4, EXECUTE 0x10, EXECUTE_READ 0x20, EXECUTE_READWRITE 0x40
+            let prot = match (r, w, x) { (false, false, false) => 1, (false, false, true) => 0x10, (true, false, false) => 2,
+                                         (true, false, true) => 0x20, (_, true, false) => 4, (_, true, true) => 0x40 };
+            let ty = if perms[3] == b'p' { 0x20000 } else { 0x40000 };
+            let o = d + 16 + 48 * k;
+            assert_eq!((rd64(img, o), rd64(img, o + 8), rd64(img, o + 24)), (s, s, e - s), "line {k}: range");
+            assert_eq!((rd32(img, o + 16), rd32(img, o + 36)), (prot, prot), "line {k} ({l}): protection");
+            assert_eq!(rd32(img, o + 32), 0x1000, "line {k}: MEM_COMMIT");
+            assert_eq!(rd32(img, o + 40), ty, "line {k}: private/shared");
+            n += 1;
+        }
+        // handle stream
+        let mut fds: Vec<(u64, String, u32)> = std::fs::read_dir(format!("/proc/{child}/fd")).unwrap().map(|e| {
+            let e = e.unwrap();
+            let fd: u64 = e.file_name().to_str().unwrap().parse().unwrap();
+            let target = std::fs::read_link(e.path()).unwrap().to_string_lossy().into_owned();
+            let c = std::ffi::CString::new(e.path().to_str().unwrap()).unwrap();
+            let mut st = unsafe { std::mem::zeroed::<libc::stat>() };
+            assert_eq!(unsafe { libc::stat(c.as_ptr(), &mut st) }, 0);
+            (fd, target, st.st_mode)
+        }).collect();
+        fds.sort();
+        let mut buffer = DumpBuf::with_capacity(0);
+        let dirent = handle_data_stream::write(&mut config, &mut buffer).expect("handle stream");
+        let img: &[u8] = &buffer;
+        let d = dirent.location.rva as usize;
+        assert_eq!((rd32(img, d), rd32(img, d + 4), rd32(img, d + 8) as usize), (16, 32, fds.len()), "handle stream header");
+        assert_eq!(dirent.location.data_size as usize, 16 + 32 * fds.len());
+        let mut got: Vec<(u64, String, u32)> = (0..fds.len()).map(|k| {
+            let o = d + 16 + 32 * k;
+            let name_rva = rd32(img, o + 12) as usize;
+            assert!(name_rva + 4 <= img.len());
+            (rd64(img, o), rdstr(img, name_rva), rd32(img, o + 16))
+        }).collect();
+        got.sort();
+        assert_eq!(got, fds, "one descriptor per open file descriptor, with its link target and mode");
+        n += fds.len();
+        println!("BPRIME evaluations={n}");
+    });
+    unsafe { libc::kill(child, libc::SIGKILL); libc::waitpid(child, std::ptr::null_mut(), 0); }
+    if let Err(e) = result { std::panic::resume_unwind(e); }
+}
